@@ -35,6 +35,9 @@ def jobs(tier):
         J.append(Job("C10.memswap.len%d" % n, "C10", "K3", "Assign/k3_memswap.c", "h_memswap_len", ["memswap"], defines=["LEN=%d" % n],
                      link=["src/Exception.c", "stubs/throw.c"], replace_calls=["exception_throw:cv_throw"], unwind=n + 3, group="C10.memswap.bounded",
                      bound="memswap stand-in without loop contract: lengths %s" % ("0..33" if tier == "thorough" else "0,1,7,8,9,12,16,17,21,24"), case="len=%d" % n))
+    J.append(Job("C10.assign.k2", "C10", "K2", "Assign/k2_assign.c", "h_assign", ["assign"], link=["src/Exception.c", "stubs/throw.c"], replace_calls=["exception_throw:cv_throw"],
+                 unwind=20, also=["C04", "C12"], group="C10.assign.k2", replay="seq_array.c", cbmc=["--no-malloc-may-fail"],
+                 assumptions=["instance(self, Assign) is cut (C08 dispatch); the type's own Assign method is under its own contract, which requires source != target"]))
     J.append(Job("C10.copy.k2", "C10", "K2", "Alloc/k2_copy.c", "h_copy", ["copy", "alloc_by", "new_with", "construct_with"], link=["src/Exception.c", "src/Num.c", "src/Pointer.c", "stubs/throw.c"],
                  replace_calls=["exception_throw:cv_throw"], unwind=4, also=["C19"], group="C10.copy.k2",
                  assumptions=["alloc (calloc model) and assign are cut by their contracts (C19 alloc, C10 Int_Assign)"]))
